@@ -79,7 +79,8 @@ def rand_case(rng, nmax=9, defects=0.0, fail=0.3, stop=0.25, again=0.15):
             elif tasks[x].kind in ("command", "experiment"):
                 rcs[x] = rng.choice([1, 2, 9, 15, 127, 255])
     return Case(tasks, root=0, again=rng.random() < again, jobs=rng.choice([1, 1, 2, 2, 3, 4]), stop=rng.random() < stop,
-                launch_fail=lf, rcs=rcs, picks=[rng.randrange(6) for _ in range(len(tasks) + 2)])
+                launch_fail=lf, rcs=rcs, picks=[rng.randrange(6) for _ in range(len(tasks) + 2)],
+                batches=[rng.choice([0, 0, 1, 1, 2, 3]) for _ in range(len(tasks) + 2)] if rng.random() < 0.3 else ())
 
 
 def all_small_graphs(n, undefined=True):
@@ -342,6 +343,13 @@ def shape_of(case):
     return "n=%d%s%s%s" % (min(n, 9), ",shared" if shared else "", ",fail" if case.launch_fail or any(case.rcs) else "", ",stop" if case.stop else "")
 
 
+def _eff(c, obs):
+    """the completion order the model is given: the index, among the processes not yet handed out, of the process each
+    wait() returned (equals the case's picks when every SIGCHLD stands for one exit)"""
+    ep = getattr(obs, "eff_picks", None)
+    return (list(ep) + [0, 0]) if (c.batches and ep is not None) else None
+
+
 def run_cases(chk, cases, oracles, needs_ok_load=True, nontrivial=None):
     """run implementation + oracles + model correspondence over the cases"""
     wants, kept = [], []
@@ -367,6 +375,7 @@ def run_cases(chk, cases, oracles, needs_ok_load=True, nontrivial=None):
         chk.count("shape", shape_of(c))
         chk.count("load", obs.load[0] if obs.load else "none")
         chk.count("jobs", str(c.jobs))
+        chk.count("several exits per SIGCHLD", "yes" if (c.batches and c.jobs > 1 and any(c.batches)) else "no")
         is_nt = (nontrivial(c, obs) if nontrivial else len(c.tasks) >= 3)
         if is_nt:
             nontriv += 1
@@ -388,7 +397,7 @@ def run_cases(chk, cases, oracles, needs_ok_load=True, nontrivial=None):
             chk.sample({"graph": c.graph_text(), "kinds": [t.kind[:3] for t in c.tasks], "jobs": c.jobs, "events": [list(e) for e in obs.events][:12]})
     chk.coverage["distinct_nontrivial"] += nontriv
     if chk.coq.model_ok and kept:
-        bad, fails = compare_with_model([c for c, _ in kept], wants)
+        bad, fails = compare_with_model([c for c, _ in kept], wants, picks=[_eff(c, o) for c, o in kept])
         chk.coverage["disagreements_checked"] += len(kept)
         chk.coverage["traces_validated_against_impl"] += len(kept) - len(bad)
         for off, raw in fails:
@@ -398,7 +407,7 @@ def run_cases(chk, cases, oracles, needs_ok_load=True, nontrivial=None):
             chk.violation("correspondence", "model and implementation disagree on %s (jobs=%d again=%s stop=%s)" % (c.graph_text(), c.jobs, c.again, c.stop),
                           {"theorem_or_tie": "correspondence Model/{Loader,Planner,Exec}.v vs task_index.py/planner.py/executor.py", "input": {"case": c.to_json()},
                            "impl_observation": {"load": obs.load, "plan": obs.plan, "events": obs.events, "flat": ser_observed(c, obs)},
-                           "model_prediction_flat": model_dump(c)}, found_input=False, size=len(c.tasks))
+                           "model_prediction_flat": model_dump(c, picks=_eff(c, obs))}, found_input=False, size=len(c.tasks))
     elif not chk.coq.model_ok:
         chk.violation("correspondence", "model does not build", {"theorem_or_tie": "build of Model/RunCase.vo", "log": chk.coq.log[-3000:]}, found_input=False)
 
